@@ -165,6 +165,7 @@ func (e *Env) tx(vb func() error, h func(ctx sdk.Context) error) Result {
 			})
 		}
 		e.xfers, e.trace, e.order = e.xfers[:nx0], e.trace[:nt0], e.order[:no0]
+		e.hookViol = e.hookViol[:0]
 	}
 	cctx, write := e.ctx.CacheContext()
 	nx := len(e.xfers)
